@@ -70,6 +70,7 @@ def matrix(tier, rnd):
                 add(P.lifecycle_scenario(0, cause, point, rnd.choice(["none", "none", "senders", "all"]), opts=o, modes_history=rand_history(rnd, o)))
     for _ in range(4 if tier == "quick" else 32):
         add(P.lifecycle_scenario(0, "cancel", "before-run", "none", opts=rand_opts(rnd)))
+        add(P.lifecycle_scenario(0, "kill", "before-run", "none", opts=rand_opts(rnd)))
     # all 2^5 option subsets, quit / kill
     for bits in range(32):
         o = {}
